@@ -5,7 +5,7 @@ NOT_APPLICABLE = {
            "threads or multiprocessing symbolically, and a sequential stub would decide one schedule only (DESIGN §4 C13)",
 }
 ENGINES = [
-    {"name": "pysym", "path": "vf/pysym", "serves_properties": ["C17", "C07", "C06", "C09", "C10", "C12", "C04", "C18", "C08", "C15", "C01", "C14", "C16", "C03", "C19", "C02"],
+    {"name": "pysym", "path": "vf/pysym", "serves_properties": ["C17", "C07", "C06", "C09", "C10", "C12", "C04", "C18", "C08", "C15", "C01", "C14", "C16", "C03", "C19", "C02", "C05", "C11", "C20"],
      "kind_free_text": "bounded path-forking symbolic interpreter over the AST of the real py7zr sources (re-parsed "
                        "from /repo on every run), z3 bit-vectors / integers / ropes; solver verdict per path"},
 ]
@@ -23,6 +23,40 @@ WR_NOTE = ("codec libraries replaced by a contract stub (consumes the source, wr
            "abstraction; the independent reference reader/writer in /verif is the oracle; session shapes are an enumerated bound, "
            "all sizes/CRCs/timestamps symbolic; payload bytes and real codecs are outside")
 CHECKS = {
+    "C05": dict(engine=B, ref="DESIGN.md §4 C05",
+                technique="bounded symbolic execution of the real section parsers from the AST on every input of N bytes with a "
+                          "count budget (a loop/allocation driven by a declared count that is not bounded by the input size is a "
+                          "counterexample), one-step progress queries on the real decode loops with a decoder stub that may run "
+                          "dry, and get_memory_limit over all resource-limit values; z3 decides",
+                text="(1) PackInfo/UnpackInfo/SubstreamsInfo/FilesInfo._read on all byte strings of 2-5 (6) bytes: every exception is "
+                     "an ordinary Exception subclass; allocation/loop sites driven by declared counts are found and reported (open "
+                     "known findings K01-K04, replayed with 42-57-byte archives under RLIMIT_AS); (2) Worker.decompress and the "
+                     "encoded-header loop of Header._read make progress or raise on every step even when the decoder returns "
+                     "nothing and takes no input (fixed F16/F17); (3) get_memory_limit() for every RLIMIT_DATA / available-memory "
+                     "value (open known finding K05: 0 or negative at or below 256 MB).",
+                note="time/memory inside the C decoders, interpreter crashes, wrong-password flows (C11) and input-bounded quadratic "
+                     "costs are outside; input length N and loop observations bounded as stated"),
+    "C11": dict(engine=B, ref="DESIGN.md §4 C11",
+                technique="bounded symbolic execution of the real AES buffering (rope domain, taint by segment source), header-mode "
+                          "setters + Header.write/_encode_header in a write session, AESCompressor.__init__/"
+                          "encode_filter_properties with RNG/cipher stubs, SevenZipDecompressor.__init__; z3 decides",
+                text="Plumbing only: (1) AESCompressor output consists of cipher output only and the cipher sees input++padding in "
+                     "order; (3) for every constructor flag and setter sequence of length <= 2 (3) the final header mode is the "
+                     "documented one, with header encryption the member name never reaches the file in clear and the header chain "
+                     "ends in 7zAES, a password with default filters makes the payload chain end in 7zAES; (4) the IV given to AES "
+                     "and stored in the coder properties is the RNG output, the RNG is asked once for 16 bytes per compressor; "
+                     "(5) any coder list of 1-4 coders containing 7zAES with password None raises PasswordRequired before any "
+                     "decoder is built; (6) a wrong key = garbage decoder output is never delivered (C04 obligations).",
+                note="AES-CBC, SHA-256, KDF cost, statistical distinctness of IVs and 'no decodable compressed form' need the real "
+                     "codecs: outside"),
+    "C20": dict(engine=B, ref="DESIGN.md §4 C20",
+                technique="bounded symbolic execution of the real Worker.decompress/SevenZipCompressor/SevenZipDecompressor and the "
+                          "decoder wrappers from the AST with recording stubs; z3 decides the per-step accounting",
+                text="py7zr's own accounting only: every decoder request is within min(what the folder still holds, memory limit), "
+                     "source and archive reads are at most one block, bytes carried between calls equal produced minus delivered, "
+                     "LZMA1/PPMd wrappers forward the caller's limit to the decoder (the wrappers that cannot are enumerated), "
+                     "get_memory_limit() range (open known finding K05). Peak RSS and the 700 MiB figure are NOT decided.",
+                note="resident memory, allocation inside the C codecs and GB-sized members need measurement: outside this technique"),
     "C02": dict(engine=B, ref="DESIGN.md §4 C02",
                 technique="bounded symbolic execution of the real _make_file_info + ArchiveFile decoding from the AST over a symbolic "
                           "st_mode (bit-vectors), and of ArchiveTimestamp.from_datetime/totimestamp over a per-binade linear model "
